@@ -118,10 +118,13 @@ static void sg_add(vh_rng_t *r, sg_plan_t *p, cfg_sys_t *sys, int kind)
       break;
     }
     case SG_TIMEOUT: {
-      int n = vh_range(r, 1, 30);
+      /* mostly everyday values; now and then one whose millisecond count needs more than 32 bits (a number of up to
+       * nine digits is a legal value: a longer wait, never a shorter one) */
+      static const int big[] = { 4294967, 4294968, 8589935, 999999999 };
+      int              n     = vh_chance(r, 1, 12) ? big[vh_below(r, 4)] : vh_range(r, 1, 30);
       snprintf(word, sizeof(word), "%s:%d", vh_chance(r, 1, 2) ? "timeout" : "retrans", n);
       snprintf(other, sizeof(other), "timeout:%d", n % 30 + 1);
-      snprintf(p->expect[kind], sizeof(p->expect[kind]), "%d", n * 1000);
+      snprintf(p->expect[kind], sizeof(p->expect[kind]), "%lld", (long long)n * 1000);
       sg_option(r, p, kind, word, other);
       break;
     }
